@@ -28,7 +28,11 @@ class Context:
         self._results = {}
 
     # -- emitted programs ----------------------------------------------------
-    def programs(self, sets=("shipped", "corpus")):
+    def default_sets(self):
+        return ("shipped", "corpus", "enum", "selfhost") if self.tier == "thorough" else ("shipped", "corpus")
+
+    def programs(self, sets=None):
+        sets = sets or self.default_sets()
         out = []
         for s in sets:
             if s not in self._programs:
@@ -108,7 +112,7 @@ class Context:
         self._results[key] = out
         return out
 
-    def per_model(self, rule_names, fn, sets=("shipped", "corpus"), use="model"):
+    def per_model(self, rule_names, fn, sets=None, use="model"):
         """Run fn(program) -> RuleResult | list[RuleResult] over all programs and merge by rule.
         Programs that failed to emit/parse produce ANCHOR violations (fail closed)."""
         merged = {r: RuleResult(r) for r in rule_names}
